@@ -21,6 +21,8 @@ int fs_nlog;
 int fs_fail_at = -1, fs_fail_errno = EIO;
 int fs_fail2_at = -1, fs_fail2_errno = EIO;
 int (*fs_fail_filter) (const char *fn);
+int (*fs_path_guard) (const char *path);
+static int guard_hit;
 int fs_crash_at = -1, fs_crash_after;
 void (*fs_crash_hook) (void);
 long (*fs_seq_hook) (void);
@@ -159,6 +161,7 @@ static int pre (fs_rec **rp, int *idxp, const char *fn, void *site) {
   r->nbytes = 0; r->site = site; r->injected = 0;
   r->seq = fs_seq_hook ? fs_seq_hook () : 0;
   site_mark (site, fn);
+  guard_hit = 0;
   *rp = r; *idxp = idx;
   if (idx == fs_crash_at && !fs_crash_after) crash_now (r);
   if ((idx == fs_fail_at || idx == fs_fail2_at) && !(fs_fail_filter && !fs_fail_filter (fn))) {
@@ -180,9 +183,17 @@ static void setp (fs_rec *r, int which, const char *p) {
   char *d = which ? r->path2 : r->path;
   if (which) r->has_path2 = 1; else r->has_path = 1;
   if (!p) { strcpy (d, "(null)"); return; }
+  if (fs_path_guard && fs_path_guard (p)) guard_hit = 1;
   size_t l = strlen (p);
   if (l >= FS_PATHMAX) { l = FS_PATHMAX - 1; r->path_trunc = 1; }
   memcpy (d, p, l); d[l] = 0;
+}
+/* the harness's guard refused a path of this call: the call is logged but never made (EACCES) */
+static int guard_fail (fs_rec *r) {
+  if (!guard_hit) return 0;
+  guard_hit = 0;
+  r->injected = 3; r->err = EACCES; r->ret = -1; errno = EACCES;
+  return 1;
 }
 static int mode_writes (const char *m) { return m && (strchr (m, 'w') || strchr (m, 'a') || strchr (m, '+')); }
 static int flags_write (int fl) { return (fl & O_ACCMODE) != O_RDONLY || (fl & (O_CREAT | O_TRUNC | O_APPEND)); }
@@ -197,7 +208,7 @@ const char *fs_describe (const fs_rec *r, char *buf, size_t len) {
   else if (r->has_path && r->mode[0]) snprintf (buf, len, "%s(\"%s\",\"%s\")=%ld", r->fn, p1, r->mode, r->ret);
   else if (r->has_path) snprintf (buf, len, "%s(\"%s\",0x%x)=%ld", r->fn, p1, r->flags, r->ret);
   else snprintf (buf, len, "%s(fd=%d n=%ld)=%ld", r->fn, r->fd, r->nbytes, r->ret);
-  if (r->err) { size_t k = strlen (buf); snprintf (buf + k, len - k, " errno=%d%s", r->err, r->injected == 1 ? " [injected]" : ""); }
+  if (r->err) { size_t k = strlen (buf); snprintf (buf + k, len - k, " errno=%d%s", r->err, r->injected == 1 ? " [injected]" : r->injected == 3 ? " [refused by the harness guard, not executed]" : ""); }
   return buf;
 }
 
@@ -211,7 +222,7 @@ int __wrap_open (const char *path, int flags, ...) {
   fs_rec *r; int idx;
   int fail = pre (&r, &idx, "open", SITE);
   setp (r, 0, path); r->flags = flags; r->wr = flags_write (flags);
-  if (fail) return -1;
+  if (fail || guard_fail (r)) return -1;
   int fd = __real_open (path, flags, mode);
   r->fd = fd;
   if (fd >= 0) track (0, fd);
@@ -225,7 +236,7 @@ int __wrap_openat (int dirfd, const char *path, int flags, ...) {
   fs_rec *r; int idx;
   int fail = pre (&r, &idx, "openat", SITE);
   setp (r, 0, path); r->flags = flags; r->wr = flags_write (flags);
-  if (fail) return -1;
+  if (fail || guard_fail (r)) return -1;
   int fd = __real_openat (dirfd, path, flags, mode);
   r->fd = fd;
   if (fd >= 0) track (0, fd);
@@ -237,7 +248,7 @@ int __wrap_creat (const char *path, mode_t mode) {
   fs_rec *r; int idx;
   int fail = pre (&r, &idx, "creat", SITE);
   setp (r, 0, path); r->wr = 1;
-  if (fail) return -1;
+  if (fail || guard_fail (r)) return -1;
   int fd = __real_creat (path, mode);
   r->fd = fd;
   if (fd >= 0) track (0, fd);
@@ -249,7 +260,7 @@ FILE *__wrap_fopen (const char *path, const char *mode) {
   fs_rec *r; int idx;
   int fail = pre (&r, &idx, "fopen", SITE);
   setp (r, 0, path); snprintf (r->mode, sizeof r->mode, "%s", mode ? mode : ""); r->wr = mode_writes (mode);
-  if (fail) { r->ret = 0; return 0; }
+  if (fail || guard_fail (r)) { r->ret = 0; return 0; }
   FILE *f = __real_fopen (path, mode);
   r->stream = f;
   if (f) { r->fd = fileno (f); track (f, r->fd); }
@@ -261,7 +272,7 @@ FILE *__wrap_freopen (const char *path, const char *mode, FILE *old) {
   fs_rec *r; int idx;
   int fail = pre (&r, &idx, "freopen", SITE);
   setp (r, 0, path); snprintf (r->mode, sizeof r->mode, "%s", mode ? mode : ""); r->wr = mode_writes (mode);
-  if (fail) { r->ret = 0; return 0; }
+  if (fail || guard_fail (r)) { r->ret = 0; return 0; }
   FILE *f = __real_freopen (path, mode, old);
   r->stream = f;
   if (f) { r->fd = fileno (f); track (f, r->fd); }
@@ -272,7 +283,7 @@ FILE *__wrap_freopen (const char *path, const char *mode, FILE *old) {
   fs_rec *r; int idx;                                                         \
   int fail = pre (&r, &idx, NAME, SITE);                                      \
   setp (r, 0, path); r->wr = (WR);                                            \
-  if (fail) return -1;                                                        \
+  if (fail || guard_fail (r)) return -1;                                                        \
   long rc = (CALL);                                                           \
   post (r, idx, rc, OKCOND);                                                  \
   return (int) rc;
@@ -295,7 +306,7 @@ ssize_t __wrap_readlink (const char *path, char *b, size_t n) {
   fs_rec *r; int idx;
   int fail = pre (&r, &idx, "readlink", SITE);
   setp (r, 0, path);
-  if (fail) return -1;
+  if (fail || guard_fail (r)) return -1;
   ssize_t rc = __real_readlink (path, b, n);
   post (r, idx, rc, rc >= 0);
   return rc;
@@ -305,7 +316,7 @@ char *__wrap_realpath (const char *path, char *res) {
   fs_rec *r; int idx;
   int fail = pre (&r, &idx, "realpath", SITE);
   setp (r, 0, path);
-  if (fail) return 0;
+  if (fail || guard_fail (r)) return 0;
   char *p = __real_realpath (path, res);
   post (r, idx, p != 0, p != 0);
   return p;
@@ -315,7 +326,7 @@ int __wrap_mkstemp (char *path) {
   fs_rec *r; int idx;
   int fail = pre (&r, &idx, "mkstemp", SITE);
   setp (r, 0, path); r->wr = 1;
-  if (fail) return -1;
+  if (fail || guard_fail (r)) return -1;
   int fd = __real_mkstemp (path);
   r->fd = fd;
   if (fd >= 0) track (0, fd);
@@ -327,7 +338,7 @@ FILE *__wrap_tmpfile (void) {
   fs_rec *r; int idx;
   int fail = pre (&r, &idx, "tmpfile", SITE);
   setp (r, 0, "(tmpfile)"); r->wr = 1;
-  if (fail) return 0;
+  if (fail || guard_fail (r)) return 0;
   FILE *f = __real_tmpfile ();
   if (f) track (f, fileno (f));
   post (r, idx, f != 0, f != 0);
@@ -338,7 +349,7 @@ FILE *__wrap_popen (const char *path, const char *mode) {
   fs_rec *r; int idx;
   int fail = pre (&r, &idx, "popen", SITE);
   setp (r, 0, path); r->wr = 1;
-  if (fail) return 0;
+  if (fail || guard_fail (r)) return 0;
   FILE *f = __real_popen (path, mode);
   post (r, idx, f != 0, f != 0);
   return f;
@@ -348,7 +359,7 @@ DIR *__wrap_opendir (const char *path) {
   fs_rec *r; int idx;
   int fail = pre (&r, &idx, "opendir", SITE);
   setp (r, 0, path);
-  if (fail) { r->ret = 0; return 0; }
+  if (fail || guard_fail (r)) { r->ret = 0; return 0; }
   DIR *d = __real_opendir (path);
   r->stream = d;
   if (d) track (d, -2);
@@ -359,7 +370,7 @@ DIR *__wrap_opendir (const char *path) {
   fs_rec *r; int idx;                                                         \
   int fail = pre (&r, &idx, NAME, SITE);                                      \
   setp (r, 0, a); setp (r, 1, b); r->wr = 1;                                  \
-  if (fail) return -1;                                                        \
+  if (fail || guard_fail (r)) return -1;                                                        \
   long rc = (CALL);                                                           \
   post (r, idx, rc, rc == 0);                                                 \
   return (int) rc;
@@ -373,7 +384,7 @@ FILE *__wrap_fdopen (int fd, const char *mode) {
   fs_rec *r; int idx;
   int fail = pre (&r, &idx, "fdopen", SITE);
   r->fd = fd; snprintf (r->mode, sizeof r->mode, "%s", mode ? mode : "");
-  if (fail) { r->ret = 0; return 0; }
+  if (fail || guard_fail (r)) { r->ret = 0; return 0; }
   FILE *f = __real_fdopen (fd, mode);
   r->stream = f;
   if (f) attach_stream (fd, f);
@@ -385,7 +396,7 @@ int __wrap_fstat (int fd, struct stat *st) {
   fs_rec *r; int idx;
   int fail = pre (&r, &idx, "fstat", SITE);
   r->fd = fd;
-  if (fail) return -1;
+  if (fail || guard_fail (r)) return -1;
   int rc = __real_fstat (fd, st);
   post (r, idx, rc, rc == 0);
   return rc;
@@ -395,7 +406,7 @@ int __wrap_fchmod (int fd, mode_t m) {
   fs_rec *r; int idx;
   int fail = pre (&r, &idx, "fchmod", SITE);
   r->fd = fd;
-  if (fail) return -1;
+  if (fail || guard_fail (r)) return -1;
   int rc = __real_fchmod (fd, m);
   post (r, idx, rc, rc == 0);
   return rc;
@@ -406,7 +417,7 @@ int __wrap_fclose (FILE *f) {
   int fail = pre (&r, &idx, "fclose", SITE);
   r->stream = f; r->fd = fileno (f);
   untrack_stream (f);
-  if (fail) {                   /* the final flush fails: what was still buffered never reaches the file, the stream is gone */
+  if (fail || guard_fail (r)) {                   /* the final flush fails: what was still buffered never reaches the file, the stream is gone */
     int e = errno;
     struct stat st;
     int fd = fileno (f), keep = fd >= 0 ? dup (fd) : -1;
@@ -427,7 +438,7 @@ size_t __wrap_fread (void *p, size_t sz, size_t n, FILE *f) {
   fs_rec *r; int idx;
   int fail = pre (&r, &idx, "fread", SITE);
   r->stream = f; r->nbytes = (long) (sz * n);
-  if (fail) { r->ret = 0; return 0; }
+  if (fail || guard_fail (r)) { r->ret = 0; return 0; }
   size_t rc = __real_fread (p, sz, n, f);
   post (r, idx, (long) rc, 1);
   return rc;
@@ -437,7 +448,7 @@ size_t __wrap_fwrite (const void *p, size_t sz, size_t n, FILE *f) {
   fs_rec *r; int idx;
   int fail = pre (&r, &idx, "fwrite", SITE);
   r->stream = f; r->nbytes = (long) (sz * n);
-  if (fail) { r->ret = 0; return 0; }
+  if (fail || guard_fail (r)) { r->ret = 0; return 0; }
   size_t rc = __real_fwrite (p, sz, n, f);
   post (r, idx, (long) rc, 1);
   return rc;
@@ -447,7 +458,7 @@ int __wrap_vfprintf (FILE *f, const char *fmt, va_list ap) {
   fs_rec *r; int idx;
   int fail = pre (&r, &idx, "fprintf", SITE);
   r->stream = f;
-  if (fail) return -1;
+  if (fail || guard_fail (r)) return -1;
   int rc = __real_vfprintf (f, fmt, ap);
   r->nbytes = rc;
   post (r, idx, rc, rc >= 0);
@@ -462,7 +473,7 @@ int __wrap_fprintf (FILE *f, const char *fmt, ...) {
     fs_rec *r; int idx;
     int fail = pre (&r, &idx, "fprintf", SITE);
     r->stream = f;
-    if (fail) rc = -1;
+    if (fail || guard_fail (r)) rc = -1;
     else {
       rc = __real_vfprintf (f, fmt, ap);
       r->nbytes = rc;
@@ -477,7 +488,7 @@ int __wrap_fputs (const char *s, FILE *f) {
   fs_rec *r; int idx;
   int fail = pre (&r, &idx, "fputs", SITE);
   r->stream = f; r->nbytes = (long) strlen (s);
-  if (fail) return EOF;
+  if (fail || guard_fail (r)) return EOF;
   int rc = __real_fputs (s, f);
   post (r, idx, rc, rc >= 0);
   return rc;
@@ -487,7 +498,7 @@ int __wrap_fputc (int c, FILE *f) {
   fs_rec *r; int idx;
   int fail = pre (&r, &idx, "fputc", SITE);
   r->stream = f; r->nbytes = 1;
-  if (fail) return EOF;
+  if (fail || guard_fail (r)) return EOF;
   int rc = __real_fputc (c, f);
   post (r, idx, rc, rc != EOF);
   return rc;
@@ -497,7 +508,7 @@ char *__wrap_fgets (char *b, int n, FILE *f) {
   fs_rec *r; int idx;
   int fail = pre (&r, &idx, "fgets", SITE);
   r->stream = f; r->nbytes = n;
-  if (fail) { r->ret = 0; return 0; }
+  if (fail || guard_fail (r)) { r->ret = 0; return 0; }
   char *p = __real_fgets (b, n, f);
   post (r, idx, p != 0, 1);
   return p;
@@ -512,7 +523,7 @@ int __wrap_fseek (FILE *f, long off, int wh) {
   fs_rec *r; int idx;
   int fail = pre (&r, &idx, "fseek", SITE);
   r->stream = f; r->nbytes = off;
-  if (fail) return -1;
+  if (fail || guard_fail (r)) return -1;
   int rc = __real_fseek (f, off, wh);
   post (r, idx, rc, rc == 0);
   return rc;
@@ -522,7 +533,7 @@ int __wrap_fflush (FILE *f) {
   fs_rec *r; int idx;
   int fail = pre (&r, &idx, "fflush", SITE);
   r->stream = f;
-  if (fail) return EOF;
+  if (fail || guard_fail (r)) return EOF;
   int rc = __real_fflush (f);
   post (r, idx, rc, rc == 0);
   return rc;
@@ -535,7 +546,7 @@ int __wrap_closedir (DIR *d) {
   int fail = pre (&r, &idx, "closedir", SITE);
   r->stream = d;
   untrack_stream (d);
-  if (fail) { int e = errno; __real_closedir (d); errno = e; return -1; }
+  if (fail || guard_fail (r)) { int e = errno; __real_closedir (d); errno = e; return -1; }
   int rc = __real_closedir (d);
   post (r, idx, rc, rc == 0);
   return rc;
@@ -545,7 +556,7 @@ ssize_t __wrap_read (int fd, void *b, size_t n) {
   fs_rec *r; int idx;
   int fail = pre (&r, &idx, "read", SITE);
   r->fd = fd; r->nbytes = (long) n;
-  if (fail) return -1;
+  if (fail || guard_fail (r)) return -1;
   ssize_t rc = __real_read (fd, b, n);
   post (r, idx, rc, rc >= 0);
   return rc;
@@ -556,7 +567,7 @@ ssize_t __wrap_write (int fd, const void *b, size_t n) {
   fs_rec *r; int idx;
   int fail = pre (&r, &idx, "write", SITE);
   r->fd = fd; r->nbytes = (long) n;
-  if (fail) return -1;
+  if (fail || guard_fail (r)) return -1;
   ssize_t rc = __real_write (fd, b, n);
   post (r, idx, rc, rc >= 0);
   return rc;
@@ -567,7 +578,7 @@ int __wrap_close (int fd) {
   int fail = pre (&r, &idx, "close", SITE);
   r->fd = fd;
   untrack_fd (fd);
-  if (fail) { int e = errno; __real_close (fd); errno = e; return -1; }
+  if (fail || guard_fail (r)) { int e = errno; __real_close (fd); errno = e; return -1; }
   int rc = __real_close (fd);
   post (r, idx, rc, rc == 0);
   return rc;
